@@ -1809,3 +1809,82 @@ theorem C08_default_rules_iff_spec (s : Schema) (d : QueryDoc) (h : C08Hyps s d)
 #print axioms C08_all_rules_are_default_rules
 #print axioms C08_default_rules_iff_spec
 end C08
+
+/- non-vacuity of `C08_OverlappingFieldsCanBeMerged` (kernel-checked): documents WITH fragment spreads -/
+namespace OverlapCompleteWitness
+open Gql Gql.Validate Gql.Validate.Witness Gql.Validate.OverlapWitness
+
+/-- `type Query { id: ID u: Node x: Int }  interface Node { id: ID u: Node x: Int }` with the scalars
+    `ID`, `Int`, `String` -/
+def schema : Schema :=
+  { Schema.empty with
+    query := some (str "Query"),
+    types := [(str "ID", scalar "ID"), (str "Int", scalar "Int"), (str "String", scalar "String"),
+              (str "Node", composite .interface "Node"), (str "Query", composite .object "Query")] }
+
+def frag (n : String) (sel : Selections) (o : Nat) : FragmentDef :=
+  { name := str n, vars := [], typeCond := str "Node", dirs := [], sel := sel, pos := at' o }
+
+def query (sel : Selections) : OperationDef :=
+  { op := str "query", name := [], vars := [], dirs := [], sel := sel, pos := at' 0 }
+
+/-- `{ u { a: id ...F ...G } }  fragment F on Node { a: id ...G }  fragment G on Node { u { a: id } }` -/
+def docGood : QueryDoc :=
+  { ops := [query (.cons (.field (str "u") (str "u") [] []
+              (.cons (leaf "a" "id" 6) (.cons (.spread (str "F") [] (at' 12)) (.cons (.spread (str "G") [] (at' 17)) .nil))) (at' 2)) .nil)],
+    frags := [frag "F" (.cons (leaf "a" "id" 45) (.cons (.spread (str "G") [] (at' 51)) .nil)) 26,
+              frag "G" (.cons (.field (str "u") (str "u") [] [] (.cons (leaf "a" "id" 82) .nil) (at' 78)) .nil) 59] }
+
+/-- `{ u { a: id ...F } }  fragment F on Node { ...G }  fragment G on Node { a: x }` — the conflict is
+    between a field of the operation and a field two spreads away -/
+def docBad : QueryDoc :=
+  { ops := [query (.cons (.field (str "u") (str "u") [] []
+              (.cons (leaf "a" "id" 6) (.cons (.spread (str "F") [] (at' 12)) .nil)) (at' 2)) .nil)],
+    frags := [frag "F" (.cons (.spread (str "G") [] (at' 40)) .nil) 21,
+              frag "G" (.cons (leaf "a" "x" 68) .nil) 49] }
+
+theorem hyps (d : QueryDoc) (h : SetStartsNodup d) : C08OverlapHyps schema d :=
+  { fieldTypesClosed := by decide +kernel
+    hasString := by decide +kernel
+    keys := C08_overlap_keysOK_of_consistent schema ⟨by decide +kernel, by decide +kernel, by decide +kernel, by decide +kernel⟩
+    setStarts := h }
+
+end OverlapCompleteWitness
+
+open OverlapCompleteWitness in
+/-- all hypotheses of `C08_OverlappingFieldsCanBeMerged` hold for `docGood`, and both sides are true … -/
+example : SetStartsNodup docGood ∧
+    (Spec.noFragmentCycles docGood && Spec.fragmentNameUniqueness docGood && Spec.wellParented schema docGood &&
+     Spec.knownRootType schema docGood && Spec.fragmentSpreadTargetDefined docGood &&
+     Spec.fragmentSpreadTypeExistence schema docGood && Spec.fragmentsOnCompositeTypes schema docGood &&
+     Spec.fieldSelections schema docGood && Spec.leafFieldSelections schema docGood && Spec.fragmentsMustBeUsed docGood &&
+     Spec.argumentUniqueness schema docGood && Spec.inputObjectFieldUniqueness schema docGood) = true ∧
+    Gql.Validate.validate [Gql.Validate.Rules.overlappingFieldsCanBeMerged] schema docGood = .ok [] ∧
+    Spec.fieldSelectionMerging schema docGood = true := by
+  refine ⟨by decide +kernel, by decide +kernel, by decide +kernel, by decide +kernel⟩
+
+open OverlapCompleteWitness in
+/-- … they hold for `docBad`, and both sides are false (the rule reports the conflict found through
+    two fragment spreads) -/
+example : SetStartsNodup docBad ∧
+    (Spec.noFragmentCycles docBad && Spec.fragmentNameUniqueness docBad && Spec.wellParented schema docBad &&
+     Spec.knownRootType schema docBad && Spec.fragmentSpreadTargetDefined docBad &&
+     Spec.fragmentSpreadTypeExistence schema docBad && Spec.fragmentsOnCompositeTypes schema docBad &&
+     Spec.fieldSelections schema docBad && Spec.leafFieldSelections schema docBad && Spec.fragmentsMustBeUsed docBad &&
+     Spec.argumentUniqueness schema docBad && Spec.inputObjectFieldUniqueness schema docBad) = true ∧
+    Gql.Validate.validate [Gql.Validate.Rules.overlappingFieldsCanBeMerged] schema docBad ≠ .ok [] ∧
+    Spec.fieldSelectionMerging schema docBad = false := by
+  refine ⟨by decide +kernel, by decide +kernel, by decide +kernel, by decide +kernel⟩
+
+open OverlapCompleteWitness in
+/-- the theorem applied to the two witnesses -/
+example : (Gql.Validate.validate [Gql.Validate.Rules.overlappingFieldsCanBeMerged] schema docGood = .ok [] ↔
+      Spec.fieldSelectionMerging schema docGood = true) ∧
+    (Gql.Validate.validate [Gql.Validate.Rules.overlappingFieldsCanBeMerged] schema docBad = .ok [] ↔
+      Spec.fieldSelectionMerging schema docBad = true) :=
+  ⟨C08_OverlappingFieldsCanBeMerged schema docGood (hyps docGood (by decide +kernel)) (by decide +kernel) (by decide +kernel)
+      (by decide +kernel) (by decide +kernel) (by decide +kernel) (by decide +kernel) (by decide +kernel) (by decide +kernel)
+      (by decide +kernel) (by decide +kernel) (by decide +kernel) (by decide +kernel),
+   C08_OverlappingFieldsCanBeMerged schema docBad (hyps docBad (by decide +kernel)) (by decide +kernel) (by decide +kernel)
+      (by decide +kernel) (by decide +kernel) (by decide +kernel) (by decide +kernel) (by decide +kernel) (by decide +kernel)
+      (by decide +kernel) (by decide +kernel) (by decide +kernel) (by decide +kernel)⟩
